@@ -1,3 +1,26 @@
 ------------------------------ MODULE CallerMC ------------------------------
 EXTENDS Caller
+(* Switch settings (sequences of entries, in list order).  Multi-entry lists put the entry that must block a
+   call AFTER an entry of the same precompile that names another method / BEFORE it / after an entry of the
+   other precompile, and combine a method entry with the whole address. *)
+StakSeq  == <<"delegateV2", "undelegateV2", "redelegateV2", "withdraw", "approveShares", "transferShares", "transferFromShares", "delegation">>
+CrossSeq == <<"crossChain", "bridgeCall", "cancelSendToExternal", "increaseBridgeFee", "executeClaim">>
+Nxt(q, i) == q[(i % Len(q)) + 1]
+Pairs(q)  == {<<q[i], Nxt(q, i)>> : i \in 1..Len(q)} \cup {<<Nxt(q, i), q[i]>> : i \in 1..Len(q)}
+
+SwitchOff == {<<>>}
+SwitchDev == {<<>>, <<"staking">>, <<"crossChain">>, <<"delegation", "transferFromShares">>, <<"transferFromShares", "crosschain">>}
+SwitchQuick ==
+  {<<>>, <<"staking">>, <<"crosschain">>, <<"transferFromShares">>, <<"crossChain">>,
+   <<"delegateV2", "transferFromShares">>, <<"transferFromShares", "delegateV2">>,   \* P/other, P/called - and the reverse
+   <<"delegateV2", "staking">>, <<"staking", "approveShares">>,                      \* P/other, P(address) - and the reverse
+   <<"crosschain", "approveShares">>,                                                \* Q(address), P/called
+   <<"bridgeCall", "crossChain">>, <<"crossChain", "bridgeCall">>,
+   <<"executeClaim", "crosschain">>, <<"staking", "cancelSendToExternal">>,
+   <<"withdraw", "bridgeCall", "transferShares", "increaseBridgeFee">>}              \* interleaved entries of both precompiles
+SwitchThorough ==
+  {<<>>} \cup {<<x>> : x \in AllMethod \cup {"staking", "crosschain"}} \cup Pairs(StakSeq) \cup Pairs(CrossSeq) \cup SwitchQuick \cup
+  {<<"withdraw", "staking">>, <<"crossChain", "crosschain">>, <<"crosschain", "executeClaim">>, <<"staking", "bridgeCall">>,
+   <<"delegateV2", "crosschain", "transferFromShares">>, <<"bridgeCall", "staking", "crossChain">>,
+   <<"undelegateV2", "redelegateV2", "withdraw", "staking">>, <<"crossChain", "bridgeCall", "cancelSendToExternal", "increaseBridgeFee", "executeClaim">>}
 =============================================================================
